@@ -327,7 +327,7 @@ impl Prop for C04 {
     fn assumptions(&self) -> Vec<String> {
         vec![
             "request targets start with '/' and contain no space or '?' in the path (origin-form)".into(),
-            "threaded runtime only".into(),
+            "this phase is the threaded runtime; the tokio runtime is exercised by the twin phase C04T of the same check".into(),
             "the reference router implements the statement literally: first host whose pattern matches, first matching route in it, else the default app's first matching route, else 404 / close without upgrade".into(),
         ]
     }
